@@ -15,6 +15,7 @@ import itertools
 from datetime import datetime, timedelta, timezone
 
 from mc import env
+from mc.refmodel import tree as T
 from mc.refmodel import rfc_tz as Z
 
 from icalendar.cal import Calendar, Timezone
@@ -105,12 +106,12 @@ def build(case):
         n1, n2 = {"given": ("XST", "XDT"), "absent": (None, None), "same": ("XT", "XT")}[names]
 
         def rule(month, ons, frm):
-            r = f"FREQ=YEARLY;BYMONTH={month};BYDAY={ordn}{wd}"
+            r = "FREQ=YEARLY"  # parts in the order the library writes them (the intact-definition oracle compares texts)
             if bound == "count":
                 r += ";COUNT=5"
             elif bound == "until":
                 r += ";UNTIL=" + fmt(ons[-1] - timedelta(minutes=frm)) + "Z"
-            return r
+            return r + f";BYDAY={ordn}{wd};BYMONTH={month}"
         d.add("STANDARD", std, std, n1, [datetime(1980, 1, 1)])
         d.add("DAYLIGHT", std, dst, n2, on_d, rule(m1, on_d, std))
         d.add("STANDARD", dst, std, n1, on_s, rule(m2, on_s, dst))
@@ -139,9 +140,9 @@ def build(case):
         o2 = rule_onsets(1995, 6, 1, "SU", 2)
         o3 = rule_onsets(1995, 10, -1, "SU", 3)
         d.add("STANDARD", std, std, n[0], [datetime(1990, 1, 1)])
-        d.add("DAYLIGHT", std, dst, n[1], o1, "FREQ=YEARLY;BYMONTH=3;BYDAY=-1SU")
-        d.add("DAYLIGHT", dst, ddst, n[2], o2, "FREQ=YEARLY;BYMONTH=6;BYDAY=1SU")
-        d.add("STANDARD", ddst, std, n[0], o3, "FREQ=YEARLY;BYMONTH=10;BYDAY=-1SU")
+        d.add("DAYLIGHT", std, dst, n[1], o1, "FREQ=YEARLY;BYDAY=-1SU;BYMONTH=3")
+        d.add("DAYLIGHT", dst, ddst, n[2], o2, "FREQ=YEARLY;BYDAY=1SU;BYMONTH=6")
+        d.add("STANDARD", ddst, std, n[0], o3, "FREQ=YEARLY;BYDAY=-1SU;BYMONTH=10")
     elif kind == "rename":
         _, _, std, variant = case
         dst = std + 60
@@ -151,8 +152,8 @@ def build(case):
         else:  # permanent summer time: DST for some years, then a STANDARD observance at the DST offset
             on_d = rule_onsets(2000, 3, -1, "SU", 2, count=4)
             on_s = rule_onsets(2000, 10, -1, "SU", 3, count=3)
-            d.add("DAYLIGHT", std, dst, "SUM", on_d, "FREQ=YEARLY;BYMONTH=3;BYDAY=-1SU;COUNT=4")
-            d.add("STANDARD", dst, std, "OLD", on_s, "FREQ=YEARLY;BYMONTH=10;BYDAY=-1SU;COUNT=3")
+            d.add("DAYLIGHT", std, dst, "SUM", on_d, "FREQ=YEARLY;COUNT=4;BYDAY=-1SU;BYMONTH=3")
+            d.add("STANDARD", dst, std, "OLD", on_s, "FREQ=YEARLY;COUNT=3;BYDAY=-1SU;BYMONTH=10")
             d.add("STANDARD", dst, dst, "PERM", [datetime(2003, 9, 1, 12)])
     else:
         raise AssertionError(case)
@@ -202,8 +203,16 @@ def run_def(case):
         env.use_provider(provider)
         try:
             comp = Timezone.from_ical(text)
+            denoted = T.model_lite(T.read(text)[0])
+            parsed = T.real_lite(comp)
             tz = comp.to_tz(TZP(provider), lookup_tzid=False)
+            after = T.real_lite(comp)
             trans += 2
+            # converting (or caching while parsing) must leave the definition itself as the text wrote it
+            if parsed != denoted:
+                fails.append(fail(f"{provider}:parsed-definition-does-not-denote-the-text", case, denoted, parsed))
+            elif after != denoted:
+                fails.append(fail(f"{provider}:conversion-changes-the-definition", case, denoted, after))
         except Exception as e:  # noqa: BLE001
             fails.append(fail(f"{provider}:conversion-raises", case, "a tzinfo", f"{type(e).__name__}: {str(e)[:100]}",
                               known=known_conversion(provider, case, e)))
